@@ -33,13 +33,14 @@ import (
 // domains and functions
 
 type dom struct {
-	Name string // identifier suffix, unique
-	Type string // "string", "int64", "uint64", "float64", "bool", "int" (small values only)
-	Size int64
-	Decl string // top-level declarations
-	Init string // statements for initDoms()
-	Elem string // element expression, %s = index (type int)
-	Lit  bool   // the value itself (not its class) goes into the violation key
+	Name   string // identifier suffix, unique
+	Type   string // "string", "int64", "uint64", "float64", "bool", "int" (small values only)
+	Size   int64
+	Decl   string // top-level declarations
+	Init   string // statements for initDoms()
+	Elem   string // element expression, %s = index (type int)
+	Lit    bool   // the value itself (not its class) goes into the violation key
+	LenKey bool   // string domain: the byte length goes into the violation key (threshold sweeps)
 }
 
 type fn struct {
@@ -385,7 +386,7 @@ func main() {
 		var f2 []*fn
 		for _, f := range fns {
 			for _, s := range strings.Split(sel, ",") {
-				if strings.HasPrefix(f.Name, s) {
+				if strings.HasPrefix(f.Name, s) || (strings.HasPrefix(s, "~") && strings.Contains(f.Name, s[1:])) {
 					f2 = append(f2, f)
 					break
 				}
@@ -396,6 +397,7 @@ func main() {
 	r.Bound("functions", len(fns))
 	r.Extra("not_present_in_waroot", missingInWa)
 	r.Extra("not_compared", notCompared)
+	r.Extra("thresholds_crossed", thresholdsCrossed)
 	perFn := map[string]int64{}
 	var totalTuples int64
 	for _, f := range fns {
@@ -825,6 +827,10 @@ func classes(f *fn, args []string) string {
 	var out []string
 	for i, a := range args {
 		lit := i < len(f.Doms) && f.Doms[i].Lit
+		if i < len(f.Doms) && f.Doms[i].LenKey && strings.HasPrefix(a, "s:") {
+			out = append(out, fmt.Sprintf("len=%d", (len(a)-2)/2))
+			continue
+		}
 		out = append(out, argClass(a, lit))
 	}
 	return strings.Join(out, ",")
